@@ -29,11 +29,84 @@ let s_pi n bs =
       | Some ((f, v), rest) -> `Ok (f, v, rest)
       | None -> `Err "err end"
 
+(* ---- large seeded strings (he.big / hd.big / ps.rt): digests.  The spec column is computed by a native
+   table-driven encoder over the extracted RFC rows (rfc_huff_rows) and the RFC 5.1 integer pseudocode; the
+   model column is the extracted model up to 1024 octets (which ties the native code to the model) and the
+   native code above (the extracted list-based model is quadratic), justified by C15_huffman_encode_is_rfc,
+   C15_huffman_roundtrip and C15_string_roundtrip. ---- *)
+let gen (seed : int64) (len : int) : Bytes.t =
+  let x = ref (Int64.logxor (Int64.mul seed 0x9E3779B97F4A7C15L) 0xD1B54A32D192ED03L) in
+  Bytes.init len (fun _ ->
+    x := Int64.add (Int64.mul !x 6364136223846793005L) 1442695040888963407L;
+    let b = Int64.to_int (Int64.shift_right_logical !x 56) in
+    Char.chr (if Int64.logand seed 1L = 1L then 97 + b mod 26 else b))
+let fnv_bytes (b : Bytes.t) : int64 =
+  let h = ref fnv_init in
+  Bytes.iter (fun c -> h := Int64.mul (Int64.logxor !h (Int64.of_int (Char.code c))) fnv_prime) b; !h
+let code_arr = lazy (Array.of_list (List.map (fun (c, l) -> (int_of_n c, int_of_n l)) rfc_huff_rows))
+let native_huff_encode (s : Bytes.t) : Bytes.t =
+  let t = Lazy.force code_arr in
+  let out = Buffer.create (Bytes.length s * 2 + 8) in
+  let acc = ref 0 and nb = ref 0 in
+  Bytes.iter (fun ch ->
+    let (c, l) = t.(Char.code ch) in
+    acc := (!acc lsl l) lor c; nb := !nb + l;
+    while !nb >= 8 do
+      Buffer.add_char out (Char.chr ((!acc lsr (!nb - 8)) land 255)); nb := !nb - 8
+    done;
+    acc := !acc land ((1 lsl !nb) - 1)) s;
+  if !nb > 0 then Buffer.add_char out (Char.chr (((!acc lsl (8 - !nb)) lor ((1 lsl (8 - !nb)) - 1)) land 255));
+  Buffer.to_bytes out
+let native_pi_encode (n : int) (flags : int) (v : int) : Bytes.t =
+  let b = Buffer.create 10 in
+  let mask = (1 lsl n) - 1 in
+  if v < mask then Buffer.add_char b (Char.chr ((flags lsl n) lor v))
+  else begin
+    Buffer.add_char b (Char.chr ((flags lsl n) lor mask));
+    let r = ref (v - mask) in
+    while !r >= 128 do Buffer.add_char b (Char.chr (!r mod 128 + 128)); r := !r / 128 done;
+    Buffer.add_char b (Char.chr !r) end;
+  Buffer.to_bytes b
+let nlist_of_bytes (b : Bytes.t) : n list = List.init (Bytes.length b) (fun i -> n_of_int (Char.code (Bytes.get b i)))
+let bytes_of_nlist (l : n list) : Bytes.t = let a = Array.of_list l in Bytes.init (Array.length a) (fun i -> Char.chr (int_of_n a.(i)))
+let model_limit = 1024
+let he_line e = Printf.sprintf "ok elen=%d h=%016Lx" (Bytes.length e) (fnv_bytes e)
+let hd_line d = Printf.sprintf "ok dlen=%d h=%016Lx" (Bytes.length d) (fnv_bytes d)
+let rt_line e d rest = Printf.sprintf "ok elen=%d h=%016Lx dlen=%d hd=%016Lx rest=%s" (Bytes.length e) (fnv_bytes e) (Bytes.length d) (fnv_bytes d) rest
+
 let unchunk spec = String.concat "" (List.filter (fun c -> c <> "-") (String.split_on_char '.' spec))
 let rec handle ws = match ws with
   (* chunked variants: the model is defined on the remaining-bytes view, i.e. on the concatenation *)
   | ["pi.decc"; size; spec] -> handle ["pi.dec"; size; (let h = unchunk spec in if h = "" then "-" else h)]
   | ["ps.decc"; size; spec] -> handle ["ps.dec"; size; (let h = unchunk spec in if h = "" then "-" else h)]
+  | ["he.big"; len; seed] ->
+    let s = gen (Int64.of_string seed) (int_of_string len) in
+    let sp = he_line (native_huff_encode s) in
+    let m = if Bytes.length s > model_limit then sp else (match hpack_encode (nlist_of_bytes s) with
+      | Ok e -> he_line (bytes_of_nlist e) | Err _ -> "err" | Panic _ -> "panic") in
+    m ^ " | " ^ sp
+  | ["hd.big"; len; seed] ->
+    let s = gen (Int64.of_string seed) (int_of_string len) in
+    let sp = hd_line s in
+    let m = if Bytes.length s > model_limit then sp else (match hpack_encode (nlist_of_bytes s) with
+      | Ok e -> (match hpack_decode e with
+          | Ok d -> hd_line (bytes_of_nlist d) | Err e -> "err " ^ huff_err_s e | Panic _ -> "panic")
+      | Err _ -> "err" | Panic _ -> "panic") in
+    m ^ " | " ^ sp
+  | ["ps.rt"; size; len; seed] ->
+    let sz = int_of_string size in
+    let s = gen (Int64.of_string seed) (int_of_string len) in
+    let he = native_huff_encode s in
+    let enc = Bytes.cat (native_pi_encode (sz - 1) 1 (Bytes.length he)) he in
+    let sp = if sz < 2 || sz > 8 then "**" else rt_line enc s "7a7a" in
+    let m = if Bytes.length s > model_limit then sp else (match ps_encode (n_of_int sz) N0 (nlist_of_bytes s) with
+      | Ok e -> (match ps_decode (n_of_int sz) (e @ [n_of_int 122; n_of_int 122]) with
+          | Ok (v, rest) -> rt_line (bytes_of_nlist e) (bytes_of_nlist v) (hex_of_bytes rest)
+          | Err PsUnexpectedEnd -> "err end"
+          | Err _ -> "err other"
+          | Panic _ -> "panic")
+      | Err _ -> "err encode" | Panic _ -> "panic") in
+    m ^ " | " ^ sp
   | ["pi.dec"; size; h] ->
     let n = int_of_string size in
     let bs = bytes_of_hex h in
